@@ -627,6 +627,14 @@ func (e *Exec) evalGhostBuiltin(st *State, call *ast.CallExpr, name string) Term
 		return e.enumPred(st, call)
 	case "__enumlemma":
 		return e.enumLemma(st, call)
+	case "__sameref":
+		// reference identity of two maps / pointers / channels (Go itself only compares maps with nil)
+		a, b := e.eval(st, call.Args[0]), e.eval(st, call.Args[1])
+		if a.Sort != SInt || b.Sort != SInt {
+			e.unsupported(call.Pos(), "__sameref on %s / %s", a.Sort, b.Sort)
+			return False
+		}
+		return Eq(a, b)
 	case "__samebytes":
 		// content equality of two byte slices (nil and empty are the same content)
 		a, b := e.evalUnboxed(st, call.Args[0]), e.evalUnboxed(st, call.Args[1])
@@ -657,6 +665,9 @@ func (e *Exec) evalGhostBuiltin(st *State, call *ast.CallExpr, name string) Term
 			o = e.frames[0].info.Uses[id]
 		}
 		if o != nil && e.tainted != nil && e.tainted[o] {
+			return False
+		}
+		if o != nil && e.borrowed != nil && e.borrowed[o] {
 			return False
 		}
 		return True
@@ -1180,6 +1191,10 @@ func (p *Program) wildcardKeys(c *Contract, text string, sc *clauseScope) ([]str
 }
 
 func (p *Program) lookupType(name string, sc *clauseScope) types.Type {
+	// package qualifiers as the source file at the clause's position spells them
+	for from, to := range p.pkgRenames(sc, sc.pos) {
+		name = regexp.MustCompile(`\b`+regexp.QuoteMeta(from)+`\.`).ReplaceAllString(name, to+".")
+	}
 	x, err := parser.ParseExpr("(*(" + name + "))(nil)")
 	if err != nil {
 		return nil
@@ -1529,10 +1544,19 @@ func (e *Exec) jsonOf(v Term) Term {
 // file does). A source file may import the same package under another name (e.g. `cm ".../common"`): package
 // qualifiers are rewritten to the name the file at pos uses, so the clause type-checks at its position.
 func (p *Program) localizePkgNames(x ast.Expr, sc *clauseScope, pos token.Pos) ast.Expr {
+	ren := p.pkgRenames(sc, pos)
+	if len(ren) == 0 {
+		return x
+	}
+	return substSelectorPkgs(x, ren, map[string]int{})
+}
+
+// pkgRenames: contract-file package name -> name used by the source file containing pos (only where they differ).
+func (p *Program) pkgRenames(sc *clauseScope, pos token.Pos) map[string]string {
 	pkg := p.Pkgs[sc.pkg.Path()]
 	pc := p.PC[sc.pkg.Path()]
 	if pkg == nil || pc == nil || !pos.IsValid() {
-		return x
+		return nil
 	}
 	var file *ast.File
 	for _, f := range pkg.Syntax {
@@ -1541,7 +1565,7 @@ func (p *Program) localizePkgNames(x ast.Expr, sc *clauseScope, pos token.Pos) a
 		}
 	}
 	if file == nil {
-		return x
+		return nil
 	}
 	// names used by the contract file: default name = last path element
 	ghost := map[string]string{} // name -> path
@@ -1583,15 +1607,7 @@ func (p *Program) localizePkgNames(x ast.Expr, sc *clauseScope, pos token.Pos) a
 			ren[name] = ln
 		}
 	}
-	if len(ren) == 0 {
-		return x
-	}
-	var walk func(n ast.Expr) ast.Expr
-	b := map[string]int{}
-	walk = func(n ast.Expr) ast.Expr {
-		return substSelectorPkgs(n, ren, b)
-	}
-	return walk(x)
+	return ren
 }
 
 // substSelectorPkgs renames the package identifier of qualified identifiers pkg.Name.
